@@ -46,9 +46,12 @@ Fixpoint expand (fuel todo target : nat) : nat :=
   | O => todo
   | S f => if Nat.ltb todo target then expand f (todo + 7) target else todo
   end.
+(* build_inner: a depth-0 build never takes the multithreaded path (no task at all) *)
 Definition octree_task_count (depth threads : nat) : nat :=
-  let target := Nat.min (8 ^ depth) (threads * 10) in
-  expand target 1 target.
+  match depth with
+  | O => 0
+  | _ => let target := Nat.min (8 ^ depth) (threads * 10) in expand target 1 target
+  end.
 
 (* ---- running tasks under a cancel token ---- *)
 Section Tasks.
